@@ -594,8 +594,12 @@ func sessionChargingReservation(
 						partialRecord = false
 					}
 				}
-				// calculate total used unit
-				totalUsedUnit += uint32(usedUnit.TotalVolume)
+				// calculate total used unit (totalVolume is optional: a container may report uplink and downlink only)
+				if usedUnit.TotalVolume == 0 {
+					totalUsedUnit += uint32(usedUnit.UplinkVolume) + uint32(usedUnit.DownlinkVolume)
+				} else {
+					totalUsedUnit += uint32(usedUnit.TotalVolume)
+				}
 			case models.QuotaManagementIndicator_QUOTA_MANAGEMENT_SUSPENDED:
 				logger.ChargingdataPostLog.Errorf("Current do not support QUOTA MANAGEMENT SUSPENDED")
 			}
